@@ -965,7 +965,42 @@ def flag_edges(fn, flags, bb, env):
                     if v is val:
                         tgt = tg
                 return [tgt]
+        if info and info["kind"] == "discr":
+            # an enum local whose variant was fixed where it was assigned
+            cp = fn.canon(info["place"])
+            if len(cp) == 1 and cp[0][0] == "local" and cp[0][1] in flags:
+                val = env.get(cp[0][1])
+                if isinstance(val, str):
+                    return [dict(info["cases"]).get(val, info["otherwise"])]
     return fn.succs(bb)
+
+
+def flag_reach(fn, start, avoid=()):
+    """Blocks reachable from `start` along paths consistent with the flag and
+    variant locals assigned on the way (`let r = if z { None } else { Some(..) };
+    match r {..}` follows only the matching edge)."""
+    flags = flag_locals(fn)
+    if not flags:
+        return fn.reach_from(start, avoid)
+    avoid = set(avoid)
+    seen = set()
+    out = set()
+    st = [(start, frozenset())]
+    budget = 40000
+    while st and budget > 0:
+        budget -= 1
+        b, envk = st.pop()
+        if b in avoid or (b, envk) in seen:
+            continue
+        seen.add((b, envk))
+        out.add(b)
+        env = flag_transfer(fn, flags, b, dict(envk))
+        k2 = frozenset(env.items())
+        for s2 in flag_edges(fn, flags, b, env):
+            st.append((s2, k2))
+    if budget <= 0:
+        return fn.reach_from(start, avoid)
+    return out
 
 
 class VariantFlow:
